@@ -18,6 +18,7 @@ EXPLANATION = ('R-GRAMMAR: each of the ten GDSII writer functions is interpreted
                'scoped reader state is reset per element (width at PATH, element pointers at ENDEL; key is set by PROPATTR before '
                'every PROPVALUE by the grammar); the PATH XY continuation block equals the BOUNDARY XY block (multi-record XY). '
                'That an arbitrary legal stream decodes to the layout it encodes is not decided.')
+ADVISORY = [('R-CLONE', r'^read_gds/XY:polygon~path-continuation')]
 ASSUMPTIONS = ['a raw cell holds a complete <structure> (byte accounting is C17\'s obligation)', 'XY chunk loops run at least once because total >= 1 (polygon count+1; element_center yields >= 1 point for a spine with >= 2 points)']
 XREF_FILES = ['src/library.cpp', 'src/gdsii.cpp', 'src/polygon.cpp', 'src/flexpath.cpp', 'src/reference.cpp', 'src/label.cpp']
 
